@@ -299,11 +299,25 @@ func (v *visitor) IndexNode(node *ast.IndexNode) reflect.Type {
 	t := v.visit(node.Node)
 	i := v.visit(node.Index)
 
-	if t, ok := indexType(t); ok {
+	if elem, ok := indexType(t); ok {
 		if !isInteger(i) && !isString(i) {
-			return v.error(node, "invalid operation: cannot use %v as index to %v", i, t)
+			return v.error(node, "invalid operation: cannot use %v as index to %v", i, elem)
 		}
-		return t
+		// A sequence is indexed by an integer and a map by a value of
+		// its key type (an index of interface type is checked at run time).
+		switch base := dereference(t); base.Kind() {
+		case reflect.Array, reflect.Slice:
+			// (a string index into a sequence of interface values is
+			// accepted: pinned by TestCheck)
+			if !isInteger(i) && !isInterface(elem) {
+				return v.error(node, "invalid operation: cannot use %v as index to %v", i, base)
+			}
+		case reflect.Map:
+			if !isInterface(i) && !i.AssignableTo(base.Key()) {
+				return v.error(node, "invalid operation: cannot use %v as index to %v", i, base)
+			}
+		}
+		return elem
 	}
 
 	return v.error(node, "invalid operation: type %v does not support indexing", t)
